@@ -547,6 +547,8 @@ KERNELS += [
     L("LayoutContextElement", ["C12", "C15"], "_rpc/_bind.py", "ContextElement", "Rpc.contextLayout"),
     L("LayoutBind", ["C12", "C15"], "_rpc/_bind.py", "Bind", "Rpc.bindLayout"),
     L("LayoutAlterContext", ["C12", "C15"], "_rpc/_bind.py", "AlterContext", "Rpc.bindLayout"),
+    L("LayoutBindAck", ["C12", "C15"], "_rpc/_bind.py", "BindAck", "Rpc.bindAckLayout"),
+    L("LayoutAlterContextResponse", ["C12", "C15"], "_rpc/_bind.py", "AlterContextResponse", "Rpc.bindAckLayout"),
     # the verification trailer, its generic command and the value of the three known commands
     L("LayoutCommand", ["C12", "C13"], "_rpc/_verification.py", "Command", "Rpc.commandLayout"),
     L("LayoutVerificationTrailer", ["C12", "C13"], "_rpc/_verification.py", "VerificationTrailer", "Rpc.vtLayout"),
@@ -618,10 +620,43 @@ def layout_items(fn, lists=frozenset()):
     """[Lean item, ...] for `return b"".join([...])`; locals of the form `(self.x + "\0").encode("utf-16-le")` are named utf16z:x"""
     body = [st for st in fn.body if not (isinstance(st, ast.Expr) and isinstance(st.value, ast.Constant))]
     locs = {}
-    for st in body[:-1]:
+    lens = {}      # integer local -> the bytes reference whose length it is (`n = len(x)`)
+    pads = {}      # integer local -> (k, bytes reference, m) for `p = -(k + n) % m`
+    pre = list(body[:-1])
+    i = 0
+    merged = []
+    while i < len(pre):
+        st = pre[i]
+        # `x = b""` / `if self.f:` / `    x = self.f.encode("utf-8") + b"\x00"`  — a NUL-terminated string that is empty when the field is
+        if i + 1 < len(pre) and isinstance(st, ast.Assign) and len(st.targets) == 1 and isinstance(st.targets[0], ast.Name) \
+                and isinstance(st.value, ast.Constant) and st.value.value == b"" and isinstance(pre[i + 1], ast.If) and not pre[i + 1].orelse \
+                and len(pre[i + 1].body) == 1 and ast.unparse(pre[i + 1].test).startswith("self.") and ast.unparse(pre[i + 1].test).count(".") == 1:
+            f = ast.unparse(pre[i + 1].test)[5:]
+            if ast.unparse(pre[i + 1].body[0]) == f"{st.targets[0].id} = self.{f}.encode('utf-8') + b'\\x00'":
+                locs[st.targets[0].id] = "cstr:" + f
+                i += 2
+                continue
+        merged.append(st)
+        i += 1
+    for st in merged:
         ok = False
         if isinstance(st, ast.Assign) and len(st.targets) == 1 and isinstance(st.targets[0], ast.Name):
             v = st.value
+            tname = st.targets[0].id
+            if isinstance(v, ast.Call) and ast.unparse(v.func) == "len" and len(v.args) == 1 and not v.keywords and isinstance(v.args[0], ast.Name) \
+                    and v.args[0].id in locs:
+                lens[tname] = locs[v.args[0].id]
+                ok = True
+            if isinstance(v, ast.BinOp) and isinstance(v.op, ast.Mod) and isinstance(v.right, ast.Constant) and isinstance(v.right.value, int) \
+                    and v.right.value > 0 and isinstance(v.left, ast.UnaryOp) and isinstance(v.left.op, ast.USub) and isinstance(v.left.operand, ast.BinOp) \
+                    and isinstance(v.left.operand.op, ast.Add) and isinstance(v.left.operand.left, ast.Constant) and isinstance(v.left.operand.left.value, int) \
+                    and v.left.operand.left.value >= 0 and isinstance(v.left.operand.right, ast.Name) and v.left.operand.right.id in lens:
+                pads[tname] = (v.left.operand.left.value, lens[v.left.operand.right.id], v.right.value)
+                ok = True
+            if isinstance(v, ast.Call) and ast.unparse(v.func) == "b''.join" and len(v.args) == 1 and isinstance(v.args[0], (ast.ListComp, ast.GeneratorExp)):
+                locs[tname] = None      # resolved by ref() below
+                locs[tname] = ("defer", v)
+                ok = True
             if (isinstance(v, ast.Call) and isinstance(v.func, ast.Attribute) and v.func.attr == "encode" and len(v.args) == 1
                     and isinstance(v.args[0], ast.Constant) and v.args[0].value == "utf-16-le" and isinstance(v.func.value, ast.BinOp)
                     and isinstance(v.func.value.op, ast.Add) and ast.unparse(v.func.value.left).startswith("self.")
@@ -645,6 +680,8 @@ def layout_items(fn, lists=frozenset()):
     def ref(node):
         t = ast.unparse(node)
         if isinstance(node, ast.Name) and node.id in locs:
+            if isinstance(locs[node.id], tuple):
+                return ref(locs[node.id][1])
             return locs[node.id]
         # b"".join([x.pack() for x in self.f]) / b"".join(x.pack() for x in self.f)
         if isinstance(node, ast.Call) and ast.unparse(node.func) == "b''.join" and len(node.args) == 1 and not node.keywords \
@@ -683,6 +720,8 @@ def layout_items(fn, lists=frozenset()):
                     items.append(f'.countOf "{arg[5:]}" {w}')
                 else:
                     items.append(f'.lenOf "{ref(tgt.args[0])}" {w}')
+            elif isinstance(tgt, ast.Name) and tgt.id in lens:
+                items.append(f'.lenOf "{lens[tgt.id]}" {w}')
             elif isinstance(tgt, ast.BinOp) and isinstance(tgt.op, ast.Add) and isinstance(tgt.right, ast.Constant) and isinstance(tgt.right.value, int) \
                     and not isinstance(tgt.right.value, bool) and tgt.right.value >= 0 and isinstance(tgt.left, ast.Call) \
                     and ast.unparse(tgt.left.func) == "len" and len(tgt.left.args) == 1 and not tgt.left.keywords:
@@ -695,6 +734,10 @@ def layout_items(fn, lists=frozenset()):
                 if ":" in r:
                     raise Unsupported(f"integer field {r}")
                 items.append(f'.int "{r}" {w}')
+        elif isinstance(e, ast.BinOp) and isinstance(e.op, ast.Mult) and isinstance(e.left, ast.Constant) and e.left.value == b"\x00" \
+                and isinstance(e.right, ast.Name) and e.right.id in pads:
+            k_, r_, m_ = pads[e.right.id]
+            items.append(f'.zerosNegMod {k_} "{r_}" {m_}')
         elif isinstance(e, ast.IfExp) and isinstance(e.orelse, ast.Constant) and e.orelse.value == b"" and ast.unparse(e.test).startswith("self."):
             r = ref(e.body)
             if r.split(":")[-1] != ast.unparse(e.test)[5:] or ":" not in r:
